@@ -72,7 +72,8 @@ def check_relational(case, rec):
         return
     rec.mon("prefixed-equals-alone")
     if a != b:
-        rec.violation(f"codes differ: alone {a} vs in group {b}", case)
+        rec.violation("error codes differ between the member alone and the prefixed annotation in the group",
+                      dict(case, codes_alone=a, codes_group=b))
 
 
 def check_bad_prefix(case, rec):
